@@ -152,6 +152,65 @@ func (s *sys) call(method, path string, body any) (int, string) {
 	return rec.Code, rec.Body.String()
 }
 
+// callRaw sends the body exactly as spelled: the admin API takes JSON documents, and which of the
+// fields a document carries (and whether it is a complete document at all) is the client's choice.
+func (s *sys) callRaw(method, path, body string) (int, string) {
+	req := httptest.NewRequest(method, path, bytes.NewReader([]byte(body)))
+	req.RemoteAddr = "127.0.0.1:5555"
+	rec := httptest.NewRecorder()
+	s.admin.ServeHTTP(rec, req)
+	return rec.Code, rec.Body.String()
+}
+
+// addRaw is add with a body spelled by the caller.
+func (s *sys) addRaw(body string) (int, string) {
+	code, out := s.callRaw("POST", "/v1/backends/add", body)
+	s.fn.Install(s.lb)
+	return code, out
+}
+
+// field is one member of a JSON object as it is written into a request body.
+type field struct {
+	Key string
+	Val any
+}
+
+// spell writes the members in the given order as one JSON object; cut > 0 ends the document after
+// that many members without closing it (a body that stops being JSON half-way through), cut == -1
+// drops only the closing brace.
+func spell(fs []field, cut int) string {
+	var b bytes.Buffer
+	b.WriteByte('{')
+	for i, f := range fs {
+		if cut > 0 && i == cut {
+			b.WriteByte(',') // the next member was announced and never came
+			return b.String()
+		}
+		if i > 0 {
+			b.WriteByte(',')
+		}
+		k, _ := json.Marshal(f.Key)
+		v, _ := json.Marshal(f.Val)
+		b.Write(k)
+		b.WriteByte(':')
+		b.Write(v)
+	}
+	if cut != 0 {
+		return b.String()
+	}
+	b.WriteByte('}')
+	return b.String()
+}
+
+// body shapes of a mutating admin request
+const (
+	bodyFull      = "full"      // every field the endpoint knows, in the README's order
+	bodyReordered = "reordered" // the same members in another order (JSON objects are unordered)
+	bodyOmit      = "omit"      // an optional or empty field is left out instead of being sent as 0 / ""
+	bodyEmpty     = "empty"     // {}
+	bodyTruncated = "truncated" // the document ends half-way through
+)
+
 func (s *sys) add(name, addr string, weight int) (int, string) {
 	code, body := s.call("POST", "/v1/backends/add", map[string]any{"name": name, "address": addr, "weight": weight})
 	s.fn.Install(s.lb)
